@@ -16,7 +16,7 @@ from .. import gen as cgen
 
 PROP = 'C08'
 TIERS = {
-    'quick': {'runs': 7000, 'chunk': 30, 'wall_cap': 80, 'min_budget': 30},
+    'quick': {'runs': 6000, 'chunk': 30, 'wall_cap': 80, 'min_budget': 30},
     'thorough': {'runs': 400000, 'chunk': 100, 'wall_cap': 850, 'min_budget': 60},
 }
 RULE = ('run kinds: heap (seeded alloc/free histories, 3-800 steps, shapes uniform / burst-then-free / adversarial address-order frees; checked after every step), '
